@@ -63,8 +63,16 @@ class PolyDisc(Discipline):
         for n, _size, dflt in spec["inputs"]:
             if dflt is not None:
                 defaults[n] = np.array([float(Fraction(t)) for t in dflt])
-        self.io.input_grammar.defaults = defaults
-        self.A = {o: np.array(spec["A"][o], dtype=float).reshape(self.out_sizes[o], -1) for o in self.out_names}
+        order = spec.get("dorder")
+        if order:
+            # the default values are defined one after the other in an order of the author's choice (input
+            # data are a mapping: the order in which its items were defined has no meaning)
+            self.io.input_grammar.defaults = {}
+            for n in [*[m for m in order if m in defaults], *[m for m in defaults if m not in order]]:
+                self.io.input_grammar.defaults.update({n: defaults[n]})
+        else:
+            self.io.input_grammar.defaults = defaults
+        self.A ={o: np.array(spec["A"][o], dtype=float).reshape(self.out_sizes[o], -1) for o in self.out_names}
         self.b = {o: np.array([float(Fraction(c)) for c in spec["b"][o]], dtype=float) for o in self.out_names}
         self.q = {o: np.array(spec["q"][o], dtype=float) for o in self.out_names}
         self.writes = [(n, float(Fraction(k)), syn) for n, (k, syn) in (spec.get("wr") or {}).items()]
